@@ -145,6 +145,10 @@ fn main() {
         for (u, t) in &disk0 {
             set_disk(&root, u, t);
         }
+        let init_open: Vec<String> = sc["initOpen"]
+            .as_array()
+            .map(|v| v.iter().filter_map(|x| x.as_str().map(|s| s.to_string())).collect())
+            .unwrap_or_default();
         let root2 = root.clone();
         let uris2 = uris.clone();
         let out = run(async move {
@@ -154,11 +158,21 @@ fn main() {
             emmyrc.workspace.enable_reindex = reindex;
             let mut s = Session::start(SessionOpts {
                 root: Some(root.clone()),
-                scheduled: true,
+                scheduled: false,
                 emmyrc: std::sync::Arc::new(emmyrc),
                 ..Default::default()
             })
             .await;
+            // documents that are already open when the behaviour starts: opened, analysed and diagnosed freely
+            for u in init_open.iter() {
+                let uri = uri_of(&root.join(format!("{u}.lua")));
+                let (m, p) = did_open(&uri, &text_of("t1"), 1);
+                s.notify(&m, p).await;
+            }
+            if !init_open.is_empty() {
+                s.advance_ms(1000).await;
+            }
+            s.set_scheduled(true);
             let _ = s.new_tasks();
             let mut map: BTreeMap<u64, u64> = BTreeMap::new(); // spec index -> real task
             let mut diverged: Option<Value> = None;
